@@ -313,6 +313,7 @@ ParseOneOk == P # <<>> => ParseOne(D) = P[1]
 CommentInvariant ==
     /\ \A i \in 0..Len(D) : Parse(InsertAt(D, i, CommentLn)) = P
     /\ Parse(AllComments(D)) = P
+CommentAllInvariant == Parse(AllComments(D)) = P
 LeadingBlankInvariant == \A pre \in Leads : Parse(pre \o D) = P /\ Parse(pre \o AllComments(D)) = P
 TrailingInvariant     == \A post \in Leads : P # <<>> => Parse(D \o post) = P
 SeparatorInvariant    == \A sep \in Seps : Parse(DumpSep(P, sep)) = P
